@@ -109,6 +109,7 @@ func jerrClass(b any) string {
 }
 
 var (
+	errCause  = errors.New("the caller's own reason for giving up")
 	errW      = errors.New("writer failed")
 	errPut    = errors.New("put failed")
 	errReplay = errors.New("replay failed")
@@ -228,15 +229,16 @@ func (w *jw) Flush() error {
 
 // recRep records the calls reaching the replayer and injects the scripted faults.
 type recRep struct {
-	t         *jtracer
-	inner     sse.Replayer
-	nPut      int
-	nReplay   int
-	putErrAt  int
-	putPanic  int
-	repErrAt  int
-	repPanic  int
-	callsDead int
+	t          *jtracer
+	inner      sse.Replayer
+	nPut       int
+	nReplay    int
+	putErrAt   int
+	putPanic   int
+	repErrAt   int
+	repPanic   int
+	callsDead  int
+	errWithMsg bool // a failing Put returns its error together with a non-nil message
 }
 
 func (r *recRep) Put(m *sse.Message, tp []string) (*sse.Message, error) {
@@ -248,6 +250,9 @@ func (r *recRep) Put(m *sse.Message, tp []string) (*sse.Message, error) {
 	}
 	if r.nPut == r.putErrAt {
 		r.t.log(jev{"e": "put", "p": name, "v": "err", "id": "", "idset": false})
+		if r.errWithMsg {
+			return m, errPut // an error is an error, whatever comes with it
+		}
 		return nil, errPut
 	}
 	o, err := r.inner.Put(m, tp)
@@ -316,7 +321,7 @@ func runScenario(seed int64, focus string) (evs []jev, blocked bool, dump string
 	case "resume":
 		repKind = repKinds[rng.Intn(5)]
 	case "faults":
-		repKind = []string{"scripted", "scripted", "finite-manual", "none"}[rng.Intn(4)]
+		repKind = []string{"scripted", "scripted", "finite-manual", "none", "valid-manual"}[rng.Intn(5)]
 	default:
 		repKind = repKinds[rng.Intn(len(repKinds))]
 	}
@@ -336,7 +341,7 @@ func runScenario(seed int64, focus string) (evs []jev, blocked bool, dump string
 		rr = &recRep{t: t, inner: vr}
 	case "scripted":
 		fr, _ := sse.NewFiniteReplayer(64, false)
-		rr = &recRep{t: t, inner: fr}
+		rr = &recRep{t: t, inner: fr, errWithMsg: rng.Intn(2) == 0}
 		switch rng.Intn(5) {
 		case 0:
 			rr.putErrAt = 1 + rng.Intn(3)
@@ -507,8 +512,9 @@ func runScenario(seed int64, focus string) (evs []jev, blocked bool, dump string
 	}
 	if rng.Intn(8) == 0 {
 		// a Shutdown whose context is already done: it must return that context's error or ErrProviderClosed
-		cctx, cc := context.WithCancel(context.WithValue(context.Background(), ctxKey{}, "k2"))
-		cc()
+		// (a context with a cause of its own: Shutdown reports the context's error, not the cause)
+		cctx, cc := context.WithCancelCause(context.WithValue(context.Background(), ctxKey{}, "k2"))
+		cc(errCause)
 		wg.Add(1)
 		go func() { defer wg.Done(); down("k2", cctx) }()
 	}
@@ -577,7 +583,7 @@ func slowSendScenario(seed int64, rng *rand.Rand, t *jtracer, j *sse.Joe, pub fu
 	fin := make(chan struct{})
 	go func() {
 		<-w.entered // Joe is inside Send now
-		dctx, dc := context.WithTimeout(context.WithValue(context.Background(), ctxKey{}, "k0"), time.Duration(1+rng.Intn(3))*time.Millisecond)
+		dctx, dc := context.WithTimeoutCause(context.WithValue(context.Background(), ctxKey{}, "k0"), time.Duration(1+rng.Intn(3))*time.Millisecond, errCause)
 		down("k0", dctx) // must come back with the context's error although Joe cannot finish
 		dc()
 		close(w.gate)
